@@ -27,7 +27,7 @@ def run(ctx):
     from props import gdbbase
     gdbbase.gdb_batch(ctx, rep, relevant('C11'), ctx.pick(40, 400), 1000333)
     # ... and as a real process in file mode
-    sessbase.process_batch(ctx, rep, ['msg', 'counts', 'none', 'info'], ctx.pick(12, 120), 1000409)
+    sessbase.process_batch(ctx, rep, ['msg', 'counts', 'none', 'info', 'error'], ctx.pick(12, 120), 1000409)
     return rep
 
 
